@@ -139,6 +139,8 @@ class CallMixin:
             elif exit_[0] == "return":
                 if func.cls is None and func.parent is None:
                     self.emit(s2, fx, "RET", node, func=func.qual, val=exit_[1])
+                elif selfterm == FAC:
+                    self.emit(s2, fx, "MRET", node, func=func.qual, val=exit_[1])      # what a factory method handed back
                 yield "ok", exit_[1], s2
             elif exit_[0] == "raise":
                 yield "raise", exit_[1], s2
